@@ -2,10 +2,14 @@
 
 use serde::{Deserialize, Deserializer};
 
+/// The wire representation of an ID: a string or an integer.
+#[doc(hidden)]
 #[derive(Deserialize)]
 #[serde(untagged)]
-enum IntOrString {
+pub enum IntOrString {
+    /// An integer ID.
     Int(i64),
+    /// A string ID.
     Str(String),
 }
 
@@ -38,4 +42,52 @@ where
     D: Deserializer<'de>,
 {
     IntOrString::deserialize(deserializer).map(String::from)
+}
+
+/// Types built from IDs by any nesting of `Option` and `Vec` (the Rust side of `[ID!]!`, `[ID]`,
+/// `[[ID!]]`, ...). Implemented for `String`, `Option<T>` and `Vec<T>`; not meant to be
+/// implemented elsewhere.
+#[doc(hidden)]
+pub trait NestedId: Sized {
+    /// The same nesting around the string-or-integer wire representation.
+    type Wire: for<'de> Deserialize<'de>;
+
+    /// Turn every integer into its decimal string.
+    fn from_wire(wire: Self::Wire) -> Self;
+}
+
+impl NestedId for String {
+    type Wire = IntOrString;
+
+    fn from_wire(wire: IntOrString) -> String {
+        wire.into()
+    }
+}
+
+impl<T: NestedId> NestedId for Option<T> {
+    type Wire = Option<T::Wire>;
+
+    fn from_wire(wire: Self::Wire) -> Self {
+        wire.map(T::from_wire)
+    }
+}
+
+impl<T: NestedId> NestedId for Vec<T> {
+    type Wire = Vec<T::Wire>;
+
+    fn from_wire(wire: Self::Wire) -> Self {
+        wire.into_iter().map(T::from_wire).collect()
+    }
+}
+
+/// Deserialize a (possibly nested, possibly nullable) list of IDs, each element from either a
+/// String or an Integer representation.
+///
+/// This is used by the codegen for ID fields with list types such as `[ID!]!`.
+pub fn deserialize_id_list<'de, D, T>(deserializer: D) -> Result<T, D::Error>
+where
+    D: Deserializer<'de>,
+    T: NestedId,
+{
+    T::Wire::deserialize(deserializer).map(T::from_wire)
 }
